@@ -23,6 +23,7 @@ type mtoken struct {
 	act       *activation
 	requested bool
 	stuck     bool
+	interrupted bool // an interrupting boundary event fired: the normal flow must not continue
 }
 
 type Model struct {
@@ -37,6 +38,7 @@ type Model struct {
 	matched  map[string]map[int]int // parallel-multiple bookkeeping: catch node -> definition index -> matches not yet used
 	Fired    map[string]int         // catch node -> number of times it released its tokens
 	Dropped  int                    // events that found no armed matching listener
+	boundaryFired map[string]int
 	Reqs     map[string]int
 	Violations []string
 	// loopCount counts answers per counter variable (the driver mirrors this)
@@ -400,6 +402,12 @@ func (m *Model) Answer(id string, results map[string]any, dataOut map[string]any
 	for i, t := range m.tokens {
 		if t.node.ID == id && t.requested {
 			m.tokens = append(m.tokens[:i], m.tokens[i+1:]...)
+			if t.interrupted {
+				// the activity was interrupted: its answer has no effect, the token is gone
+				m.consume(t.act)
+				m.settle()
+				return ""
+			}
 			for _, r := range t.node.Results {
 				if v, ok := results[r]; ok {
 					m.vars[r] = v
@@ -513,6 +521,49 @@ func (m *Model) Deliver(kind, ref string) {
 		}
 	}
 	any := false
+	// boundary events: they react while their host activity holds a token (is waiting for its answer);
+	// the exception flow continues once per event and boundary event, however many tokens wait inside
+	doneB := map[string]bool{}
+	for _, t := range append([]*mtoken{}, m.tokens...) {
+		if t.stuck || t.node.Kind != "task" && t.node.Kind != "sub" {
+			continue
+		}
+		for _, b := range t.act.graph.Nodes {
+			if b.Kind != "boundary" || b.Attached != t.node.ID {
+				continue
+			}
+			hit := false
+			for _, d := range b.Events {
+				if defMatches(d, kind, ref) {
+					hit = true
+				}
+			}
+			if !hit {
+				continue
+			}
+			key := fmt.Sprintf("%s/%d", b.ID, t.act.id)
+			if m.boundaryFired == nil {
+				m.boundaryFired = map[string]int{}
+			}
+			if b.Interrupting {
+				t.interrupted = true
+			}
+			if doneB[key] {
+				continue
+			}
+			doneB[key] = true
+			if b.Interrupting && m.boundaryFired[key] > 0 {
+				continue // an interrupting boundary event fires once per activation of its host
+			}
+			any = true
+			m.boundaryFired[key]++
+			m.Fired[b.ID]++
+			t.act.live += len(b.Out)
+			for _, f := range b.Out {
+				m.arrive(t.act.graph.Flow(f), t.act)
+			}
+		}
+	}
 	for _, k := range order {
 		n := k.n
 		if n.Kind == "evgw" {
